@@ -211,7 +211,7 @@ fn proc_case(seed: u64, i: u64, out: &mut dyn std::io::Write) {
         // address the image is linked at
         // (an image without program headers says nothing about where it is linked: only bias 0 is meaningful then)
         let consistent = kind != "short" && (spec.bias == 0 || spec.has_phdrs);
-        files.push((path, layout, bytes, consistent, spec.soname_twice));
+        files.push((path, layout, bytes, consistent, spec.soname_twice || spec.soname_at_strsz.is_some()));
     }
     let t = match Target::spawn(&args) {
         Ok(t) => t,
@@ -237,7 +237,7 @@ fn wellformed_case(seed: u64, i: u64) -> String {
     let (b, s) = run_slice(&built.bytes);
     let rb = built.build_id.as_ref().map(|v| if v.is_empty() { "empty".to_string() } else { hex(v) }).unwrap_or("none".into());
     // two DT_SONAME entries are not something a well-formed file has: no reference answer then
-    let rs = if spec.soname_twice { "-".to_string() } else { built.soname.as_ref().map(|v| hex(v)).unwrap_or("none".into()) };
+    let rs = if spec.soname_twice || spec.soname_at_strsz.is_some() { "-".to_string() } else { built.soname.as_ref().map(|v| hex(v)).unwrap_or("none".into()) };
     format!(
         "C14 w{}-{} kind=slice data={} buildid={} soname={} ref_buildid={} ref_soname={} spec=bias{:x}.last{}.link{}.dp{}.ds{}.np{}.ns{}.tw{} wf={}{}{}{}{}",
         seed, i, hex(&built.bytes), b, s, rb, rs,
